@@ -13,6 +13,7 @@ at one of their effects, run against the real KeychainSqlite3 + TpmFile in a scr
        says (this contains the delete cascades incl. private keys), refused iff the spec refuses;
      - get_signer: the signer is the one KeychainSpec.signer_of demands, its signature verifies under
        the stored public key of the selected key, and that key is listed in the keychain;
+     - every self-signed certificate listed by a Key verifies under the key bits of that Key;
      - fault recovery: an operation that failed by an injected fault is repeated and must end in the
        same observable state / result as a clean run of it on a copy of the store taken before.
 """
@@ -28,8 +29,17 @@ RULE = ('histories of <=25 (quick) / <=60 (thorough) operations over create/touc
         'duplicate names; ill-named ones only in the malformed stream), set default identity/key/cert, delete '
         'cert/key/identity (keychain and Identity/Key methods), get_signer (default/identity/key/cert selection, names '
         'as str/list/bytes/object, key_locator override from a small pool), close/reopen; a storage failure at a random '
-        'effect of ~25% of the operations, followed by a repeat of the operation. non-trivial = the history creates a '
-        'key and contains a delete, a signer request or a fault; distinct by history hash')
+        'effect of ~25% of the operations, followed by a repeat of the operation. name-reuse stratum (60 quick / 600 '
+        'thorough histories on top): key ids (random-generator candidates and explicit ids), certificate versions and '
+        'identity names come from pools of 2-5 values, and a key / identity that was deleted (del_key, Identity.del_key, '
+        'del_identity) is created again under the SAME name with a new key pair (new_key explicit or random id, '
+        'touch_identity, new_identity + new_key; EC and RSA, same or other type, same or other certificate version), '
+        'without and with close+reopen or a signer request for the dead key in between, followed by signer requests '
+        'that select the re-created key by key name, certificate name, Key / Identity / Certificate object, identity '
+        'and default identity (after set_default_key / set_default_identity), with and without key_locator; the signer '
+        'must sign so that the signature verifies under the key bits the keychain stores for the selected key NOW, and '
+        'every self-signed certificate in the views must verify under the key bits of its key. non-trivial = the '
+        'history creates a key and contains a delete, a signer request or a fault; distinct by history hash')
 ASSUMPTIONS = [
     'SQLite executes the triggers of INITIALIZE_SQL as modelled (exercised on every case, not verified)',
     'a storage failure is an exception raised at a step boundary (statement, commit, key-file write/delete/read), '
@@ -235,6 +245,7 @@ def exc_code(e):
 
 # ---- the implementation under test --------------------------------------------------------------------
 LIVE = []
+SELF_OK = {}         # wire of a self-signed certificate -> its signature verifies under the key bits it carries
 
 
 class Impl:
@@ -461,6 +472,13 @@ class Impl:
         try:
             c = parse_certificate(data)
             if abs_name(c.name) == cert_name and bytes(c.content) == bytes(key_bits):
+                ok = SELF_OK.get(data)
+                if ok is None:
+                    ok = SELF_OK[data] = verify_wire(data, bytes(key_bits))[0]
+                if not ok:
+                    self.note('KeychainSqlite3.new_key', 'self-signed-certificate-not-by-its-key',
+                              f'the self-signed certificate {cert_name} carries the key bits of its key but its '
+                              f'signature does not verify under them')
                 return 0
         except Exception:   # noqa
             pass
@@ -623,21 +641,28 @@ OP_SITE = {1: 'KeychainSqlite3.new_identity', 2: 'KeychainSqlite3.touch_identity
 # ---- history generation ---------------------------------------------------------------------------------
 ID_POOL = [[10], [11], [12], [10, 13], [11, 0, 2001]]
 LOC_POOL = [[90], [91], [10, 92]]
+# the name-reuse stratum draws every name from a tiny pool, so that a name that existed before is given out again
+KID_POOL = [2000, 2001, 2002]          # key ids the "random" generator may hand out (8 octets)
+XKID_POOL = [3000, 3001]               # explicit key ids (str / Component)
+VER_POOL = [100001, 100002, 100003]    # certificate versions
 
 
 class Gen:
-    def __init__(self, rng, malformed):
+    def __init__(self, rng, malformed, reuse=False):
         self.rng = rng
         self.malformed = malformed
+        self.reuse = reuse
         self.next_m = 1
         self.next_rsa = 1001
-        self.next_kid = 2000
-        self.next_xkid = 3000
-        self.next_ver = 100001
+        self.next_kid = 2010 if reuse else 2000
+        self.next_xkid = 3010 if reuse else 3000
+        self.next_ver = 100010 if reuse else 100001
         self.next_data = 1
         self.ever_keys = []
         self.ever_certs = []
         self.illnamed = False
+        self.todo = []          # reuse stratum: operations scheduled to follow (signer requests after a re-creation ...)
+        self.was_rsa = set()    # reuse stratum: key names that were RSA keys at some time
 
     def material(self, rsa=False):
         if rsa and self.next_rsa <= 1000 + N_RSA:
@@ -665,6 +690,10 @@ class Gen:
 
     def _op(self, obs):
         rng = self.rng
+        if self.todo:
+            o = self.todo.pop(0)
+            if rng.random() < 0.85:
+                return o
         if getattr(self, 'replay_signer', None) is not None:
             a, self.replay_signer = self.replay_signer, None
             if rng.random() < 0.7:
@@ -673,6 +702,10 @@ class Gen:
         keys = [k[0] for i in obs[1] for k in i[3]]
         certs = [c[0] for i in obs[1] for k in i[3] for c in k[4]]
         tpm = [t[0] for t in obs[3]]
+        if self.reuse:
+            o = self._reuse_op(obs, ids, keys, certs, tpm)
+            if o is not None:
+                return o
 
         def any_id():
             return rng.choice(ID_POOL)
@@ -697,21 +730,10 @@ class Gen:
             return self.pick(certs, any_cert, p)
 
         def version():
-            old = [c[-1] for c in self.ever_certs if c[-1] >= 100000]
-            if old and rng.random() < 0.1:
-                return rng.choice(old)
-            self.next_ver += 1
-            return self.next_ver - 1
+            return self.version()
 
         def cands(idn):
-            out = []
-            mine = [k[-1] for k in (keys + tpm) if k[:-2] == idn and 2000 <= k[-1] < 3000]
-            if mine and rng.random() < 0.3:
-                out.append(rng.choice(mine))
-                if rng.random() < 0.3:
-                    out.append(rng.choice(mine))
-            self.next_kid += 1
-            return out + [self.next_kid - 1]
+            return self.cands(idn, keys, tpm)
 
         w = rng.random() * 100
         if not ids and w > 30:
@@ -737,6 +759,8 @@ class Gen:
                     mine = [k[-1] for k in (keys + tpm) if k[:-2] == idn]
                     if mine and rng.random() < 0.4:
                         ks = [1, rng.choice(mine)]
+                    elif self.reuse and rng.random() < 0.8:
+                        ks = [1, rng.choice(XKID_POOL + KID_POOL)]
                     else:
                         self.next_xkid += 1
                         ks = [1, self.next_xkid - 1]
@@ -802,6 +826,113 @@ class Gen:
             return [13, a]
         return [14]
 
+    # -- helpers shared by the plain and the name-reuse stratum ------------------------------------------
+    def version(self):
+        rng = self.rng
+        if self.reuse and rng.random() < 0.6:
+            return rng.choice(VER_POOL)
+        old = [c[-1] for c in self.ever_certs if c[-1] >= 100000]
+        if old and rng.random() < 0.1:
+            return rng.choice(old)
+        self.next_ver += 1
+        return self.next_ver - 1
+
+    def cands(self, idn, keys, tpm, want=None):
+        """candidate key ids for the random generator; the last one is free (no key, no key file of that name).
+        [want]: a free id that is to be handed out."""
+        rng = self.rng
+        out = []
+        mine = [k[-1] for k in (keys + tpm) if k[:-2] == idn and 2000 <= k[-1] < 3000]
+        if mine and rng.random() < 0.3:
+            out.append(rng.choice(mine))
+            if rng.random() < 0.3:
+                out.append(rng.choice(mine))
+        if want is not None:
+            return out + [want]
+        if self.reuse and rng.random() < 0.75:
+            free = [k for k in KID_POOL if k not in mine]
+            if free:
+                return out + [rng.choice(free)]
+        self.next_kid += 1
+        return out + [self.next_kid - 1]
+
+    # -- the name-reuse stratum: delete, then create again under the name that existed before -----------------
+    def signer_burst(self, kn, ver):
+        """signer requests that select key [kn] in every form (key name, certificate name, identity, default; the
+        variant of the step turns names into Key / Identity / Certificate objects), some after a close + reopen"""
+        rng = self.rng
+        idn = kn[:-2]
+        forms = [[0, 0, [], [kn], [], []],
+                 [0, 0, [kn + [1, ver]], [], [], []],
+                 [0, 0, [], [kn], [], []],
+                 [0, 0, [kn + [1, ver]], [], [], [rng.choice(LOC_POOL)]]]
+        rng.shuffle(forms)
+        out = [[13, a] for a in forms[:rng.randint(1, 3)]]
+        if rng.random() < 0.5:
+            out.append([6, idn, kn])
+            out.append([13, [0, 0, [], [], [idn], []]])
+            if rng.random() < 0.5:
+                out.append([5, idn])
+                out.append([13, [0, 0, [], [], [], []]])
+        if rng.random() < 0.3:
+            out.insert(rng.randrange(len(out) + 1), [14])
+        return out
+
+    def _reuse_op(self, obs, ids, keys, certs, tpm):
+        rng = self.rng
+        for i in obs[1]:
+            for k in i[3]:
+                if k[1] >= 1000:
+                    self.was_rsa.add(tuple(k[0]))
+        r = rng.random()
+        dead = [k for k in self.ever_keys if k not in keys and k not in tpm]
+        if dead and r < 0.30:
+            # create a key again under a name that was deleted before (same or other key type, new key pair)
+            kn = list(rng.choice(dead))
+            idn, kid = kn[:-2], kn[-1]
+            old_ver = [c[-1] for c in self.ever_certs if c[:-2] == kn and c[-2] == 1]
+            ver = rng.choice(old_ver) if old_ver and rng.random() < 0.6 else self.version()
+            rnd = 2000 <= kid < 3000 and rng.random() < 0.5
+            if idn not in ids and rnd and rng.random() < 0.7:
+                m = self.material()
+                if not m:
+                    return None
+                self.todo = self.signer_burst(kn, ver)
+                return [2, idn, self.cands(idn, keys, tpm, want=kid), m, ver]
+            m = self.material(rsa=rng.random() < (0.6 if tuple(kn) in self.was_rsa else 0.25))
+            if not m:
+                return None
+            ktype = 1 if m >= 1000 else 0
+            if idn not in ids:
+                self.todo = [[3, idn, ktype, [1, kid], m, ver]] + self.signer_burst(kn, ver)
+                return [1, idn]
+            self.todo = self.signer_burst(kn, ver)
+            ks = [0] + self.cands(idn, keys, tpm, want=kid) if rnd else [1, kid]
+            return [3, idn, ktype, ks, m, ver]
+        if keys and r < 0.44:
+            # delete a key (directly, through its identity, or with its identity); sometimes ask for its signer or
+            # close + reopen before anything else happens
+            kn = list(rng.choice(keys))
+            t = rng.random()
+            o = [9, kn] if t < 0.55 else ([11, kn[:-2], kn] if t < 0.75 else [10, kn[:-2]])
+            self.todo = []
+            if rng.random() < 0.3:
+                self.todo.append([13, [0, 0, [], [kn], [], []]])
+            if rng.random() < 0.25:
+                self.todo.append([14])
+            return o
+        if ids and r < 0.52:
+            # a key under a pooled explicit id, RSA more often than in the plain stratum
+            idn = list(rng.choice(ids))
+            m = self.material(rsa=rng.random() < 0.5)
+            if m:
+                kid = rng.choice(XKID_POOL + KID_POOL)
+                ver = self.version()
+                if idn + [0, kid] not in keys:
+                    self.todo = self.signer_burst(idn + [0, kid], ver)[:2]
+                return [3, idn, 1 if m >= 1000 else 0, [1, kid], m, ver]
+        return None
+
     def fault(self, op):
         rng = self.rng
         if op[0] == 14 or rng.random() > 0.27:
@@ -822,11 +953,16 @@ class Gen:
 
 # ---- verification of a signature made by a signer ----------------------------------------------------------
 def verify_with(signer, pub_der):
+    from ndn.encoding import make_data, MetaInfo
+    return verify_wire(make_data('/c15/probe', MetaInfo(), b'payload', signer=signer), pub_der)
+
+
+def verify_wire(wire, pub_der):
+    """(the signature of the Data packet verifies under the public key, abstract key locator name)"""
     from Cryptodome.PublicKey import ECC, RSA
     from Cryptodome.Hash import SHA256
     from Cryptodome.Signature import DSS, pkcs1_15
-    from ndn.encoding import make_data, parse_data, MetaInfo
-    wire = make_data('/c15/probe', MetaInfo(), b'payload', signer=signer)
+    from ndn.encoding import parse_data
     _, _, _, sig = parse_data(wire)
     h = SHA256.new()
     for blk in sig.signature_covered_part:
@@ -855,21 +991,22 @@ def find_key(obs, kn):
     return None
 
 
-def run_history(ctx, seed, length, malformed, fixed=None):
+def run_history(ctx, seed, length, malformed, fixed=None, reuse=False):
     """Generate (or replay [fixed]) one history on the implementation, check the oracles, then compare with
     the model.  Returns the history as a replayable list."""
     import random
     rng = random.Random(seed)
     M = ctx.call
-    gen = Gen(rng, malformed)
+    gen = Gen(rng, malformed, reuse)
     impl = Impl()
     hist, trace, record = [], [], []
     lost = set()
+    recreated, since_open, ever_ids = set(), set(), []   # counters of the name-reuse stratum (evidence only)
     flagsum = {'key': False, 'del': False, 'sign': False, 'fault': False}
     spec_ok = True          # the spec oracles apply (no ill-named certificate imported so far)
 
     def case():
-        return {'seed': seed, 'malformed': malformed, 'history': record}
+        return {'seed': seed, 'malformed': malformed, 'reuse': reuse, 'history': record}
 
     def viol(site, cls, what):
         ctx.violation(site, cls, what, case())
@@ -936,6 +1073,8 @@ def run_history(ctx, seed, length, malformed, fixed=None):
         if not sel:
             return
         kn = sel[0][0]
+        if tuple(kn) in recreated:
+            ctx.stat('reuse:signer-for-re-created-key')
         fk = find_key(prev, kn)
         if fk is None:
             viol(site, 'signer-for-key-not-in-keychain', f'args {a}: signer for key {kn} which is not (no longer) in the keychain')
@@ -981,6 +1120,23 @@ def run_history(ctx, seed, length, malformed, fixed=None):
             record.append([[fault] if fault is not None else [], op, variant])
             trace.append((res, obs, impl.in_txn))
             after_step(prev, op, fault, res, obs, faulted)
+            if op[0] in (1, 2, 3, 4) and res[0] == 1:
+                was = [k[0] for i in prev[1] for k in i[3]]
+                for i_ in obs[1]:
+                    if i_[0] not in [j[0] for j in prev[1]] and i_[0] in ever_ids:
+                        ctx.stat('reuse:identity-name-re-created')
+                    for k in i_[3]:
+                        if k[0] not in was and k[0] in gen.ever_keys:
+                            recreated.add(tuple(k[0]))
+                            ctx.stat('reuse:key-name-re-created' + (':rsa' if k[1] >= 1000 else ':ec')
+                                     + (':same-open' if tuple(k[0]) in since_open else ':reopened-in-between'))
+                        for c in k[4]:
+                            if c[0] in gen.ever_certs and not any(c[0] == c2[0] for i2 in prev[1] for k2 in i2[3] for c2 in k2[4]):
+                                ctx.stat('reuse:certificate-name-re-created')
+            if op[0] == 14:
+                since_open.clear()
+            since_open.update(tuple(k[0]) for i_ in obs[1] for k in i_[3])
+            ever_ids.extend(i_[0] for i_ in obs[1] if i_[0] not in ever_ids)
             flagsum['key'] |= op[0] in (2, 3) and res[0] == 1
             flagsum['del'] |= op[0] in (8, 9, 10, 11, 12) and res[0] == 1
             flagsum['sign'] |= op[0] == 13 and res[0] == 1
@@ -1038,9 +1194,10 @@ def run_history(ctx, seed, length, malformed, fixed=None):
     finally:
         while LIVE:
             LIVE.pop().close()
+        SELF_OK.clear()
     nontrivial = flagsum['key'] and (flagsum['del'] or flagsum['sign'] or flagsum['fault'])
     ctx.case(('h', seed, malformed, repr(hist)), nontrivial,
-             {'history': record[:6], 'len': len(record)}, 'malformed' if malformed else 'valid')
+             {'history': record[:6], 'len': len(record)}, 'malformed' if malformed else ('reuse' if reuse else 'valid'))
     return record
 
 
@@ -1055,6 +1212,11 @@ def run(ctx):
             malformed = (h % 5 == 4)
             length = rng.randint(4, max_len)
             run_history(ctx, seed, length, malformed)
+        # the name-reuse stratum (drawn after the plain histories, which it leaves as they were)
+        for h in range(ctx.n(60, 600)):
+            seed = rng.getrandbits(48)
+            length = rng.randint(8, max_len)
+            run_history(ctx, seed, length, False, reuse=True)
     finally:
         undo_patches()
 
@@ -1065,6 +1227,6 @@ def replay(ctx, data):
     case = unjson(data.get('case') or data['broken'][0]['case'])
     setup_pool_and_patches()
     try:
-        run_history(ctx, case['seed'], 0, case['malformed'], fixed=case['history'])
+        run_history(ctx, case['seed'], 0, case['malformed'], fixed=case['history'], reuse=case.get('reuse', False))
     finally:
         undo_patches()
